@@ -102,7 +102,7 @@ Definition w_stats (s : N * (N * N)) : list N := let '(a, (b, c)) := s in [a; b;
 
 (* the harness norm function: a positive, finite float32 bit pattern *)
 Definition harness_norm (name : bytes) (len : N) : N :=
-  1056964608 + (len * 131 + sumN name) mod 1048576.
+  (if len mod 3 =? 0 then 1073741824 else 1056964608) + (len * 131 + sumN name) mod 1048576.
 
 (* the three user flags collapse to two internal ones *)
 Definition flags_fn (fl : bool * bool * bool) : bool :=
